@@ -35,6 +35,7 @@ func runC16(c *Ctx) {
 	c16Layout(c)
 	c16Probe(c)
 	c16Accept(c)
+	c16ProbeOn(c)
 	c16Capacity(c)
 	c16HeaderLast(c)
 	c16HeaderComplete(c)
@@ -1479,4 +1480,86 @@ func c16OneHash(c *Ctx) {
 	}
 	sort.Strings(names)
 	c.Check(rule, "go-cdb|one-entry-point-into-the-hash-library", len(used) == 1, token.NoPos, fmt.Sprintf("hash library functions used: %v", names))
+}
+
+// c16ProbeOn implements C16.probe-on: a slot whose stored hash equals the key's hash may still belong to another key
+// (32-bit hashes collide, and a key may simply be longer). The search then has to go on with the next slot. The only
+// ways out of the reader's probe loop are therefore: the loop bound, an empty slot (position 0), and the success
+// return. (Seed c16e broke out of the loop at the first slot whose hash matched and whose key differed: every key
+// stored behind such a slot was reported absent.)
+func c16ProbeOn(c *Ctx) {
+	rule := "C16.probe-on"
+	c.Rule(rule, "A2 in Cdb.find: every edge that leaves the probe loop is the loop bound (leaves from the loop head), the true outcome of a comparison of the slot position with 0, or is dominated by the true outcome of match(key, ...); no exit is taken on a negative outcome of the hash, key-length or key comparison")
+	find := cdbFn(c, "(*Cdb).find")
+	c.Examined(find)
+	match := c.TypesFunc(cdbShort, "(*Cdb).match")
+	readNums := c.TypesFunc(cdbShort, "(*Cdb).readNums")
+	n := 0
+	for h, body := range naturalLoops(find) {
+		// the probe loop reads slots; the key comparison is reachable from it (inside the loop as long as a
+		// mismatch goes on probing)
+		readsSlot, hasMatch := false, false
+		for b := range body {
+			for _, in := range b.Instrs {
+				if call, ok := in.(*ssa.Call); ok && calleeOf(call.Common()) == readNums {
+					readsSlot = true
+				}
+			}
+		}
+		for b := range reachable(h, nil) {
+			for _, in := range b.Instrs {
+				if call, ok := in.(*ssa.Call); ok && calleeOf(call.Common()) == match {
+					hasMatch = true
+				}
+			}
+		}
+		if !readsSlot || !hasMatch {
+			continue
+		}
+		n++
+		var bad []string
+		exits := 0
+		for b := range body {
+			for i, sb := range b.Succs {
+				if body[sb] {
+					continue
+				}
+				exits++
+				if b == h {
+					continue // the loop bound
+				}
+				ok := false
+				var fs []fact
+				fs = append(fs, factsAt(b)...)
+				if iff, isIf := b.Instrs[len(b.Instrs)-1].(*ssa.If); isIf {
+					condImplies(iff.Cond, i == 0, 0, &fs)
+					if x, op, isZ := cmpZero(iff.Cond); isZ && x != nil && ((op == token.EQL && i == 0) || (op == token.NEQ && i == 1)) {
+						ok = true // the empty slot
+					}
+				}
+				for _, f := range fs {
+					if call, isCall := f.V.(*ssa.Call); isCall && f.Truth && calleeOf(call.Common()) == match {
+						ok = true // found
+					}
+				}
+				if !ok {
+					at := token.NoPos
+					for _, in := range b.Instrs {
+						if in.Pos().IsValid() {
+							at = in.Pos()
+						}
+					}
+					if iff, isIf := b.Instrs[len(b.Instrs)-1].(*ssa.If); isIf && iff.Cond.Pos().IsValid() {
+						at = iff.Cond.Pos()
+					}
+					bad = append(bad, c.relPos(at))
+				}
+			}
+		}
+		sort.Strings(bad)
+		c.Check(rule, fnName(find)+"|exits-of-the-probe-loop", len(bad) == 0 && exits >= 3, h.Instrs[len(h.Instrs)-1].Pos(), fmt.Sprintf("%d exits; exits taken although the search has to go on with the next slot: %v", exits, bad))
+	}
+	if n == 0 {
+		c.Undecided(rule, fnName(find)+"|probe-loop", find.Pos(), "the loop that calls match was not found")
+	}
 }
